@@ -165,14 +165,18 @@ theorem stepRset_shape (v : Verdicts) (s : St) (arg : Option Bytes) :
   simp only [stepRset]
   split
   · exact rej _ s 501 (by simp)
-  · simp only [callback]; exact finish_shape _ _ _ _ (by allowed_tac)
+  · by_cases hp : s.session = true
+    · simp only [hp, if_true]; exact finish_shape _ _ _ _ (by allowed_tac)
+    · simp only [hp, Bool.false_eq_true, if_false, callback]; exact finish_shape _ _ _ _ (by allowed_tac)
 
 theorem stepQuit_shape (v : Verdicts) (s : St) (arg : Option Bytes) :
     Shape (Allowed s) (stepQuit v s arg).2.1 (stepQuit v s arg).2.2 := by
   simp only [stepQuit]
   split
   · exact rej _ s 501 (by simp)
-  · simp only [callback]; exact finish_shape _ _ _ _ (by allowed_tac)
+  · by_cases hp : s.session = true
+    · simp only [hp, if_true]; exact finish_shape _ _ _ _ (by allowed_tac)
+    · simp only [hp, Bool.false_eq_true, if_false, callback]; exact finish_shape _ _ _ _ (by allowed_tac)
 
 /-- **Every command line gets exactly one final reply** (`354`/`220`-before-handshake count as the
     reply of that line; an AUTH exchange that still has to run has sent nothing yet), **an error reply
@@ -200,7 +204,9 @@ theorem step_shape (v : Verdicts) (s : St) (cmd : Option (Bytes × Option Bytes)
                 · split
                   · exact stepRset_shape _ _ _
                   · split
-                    · simp only [stepNoop, callback]; exact finish_shape _ _ _ _ (by simp [Allowed])
+                    · by_cases hp : s.session = true
+                      · simp only [stepNoop, hp, if_true]; exact finish_shape _ _ _ _ (by simp [Allowed])
+                      · simp only [stepNoop, hp, Bool.false_eq_true, if_false, callback]; exact finish_shape _ _ _ _ (by simp [Allowed])
                     · split
                       · exact stepQuit_shape _ _ _
                       · split
@@ -296,7 +302,7 @@ theorem reset_after_tls (s : St) :
 theorem reset_after_rset (v : Verdicts) (s : St) (h : (v s.ncb).getD 250 = 250) :
     (stepRset v s none).1.haveMail = .unset ∧ (stepRset v s none).1.haveRcpt = .unset ∧
     (stepRset v s none).1.envelope = none := by
-  simp [stepRset, callback, finish_state, h]
+  by_cases hp : s.session = true <;> simp [stepRset, callback, finish_state, h, hp]
 
 /-- An accepted EHLO/HELO forgets sender and recipients. -/
 theorem reset_after_hello (v : Verdicts) (s : St) (isE : Bool) (a : Bytes) (hb : s.bannered = true)
@@ -347,11 +353,13 @@ theorem rset_keeps (v s arg) : KeepsMail s (stepRset v s arg).1 ∧ KeepsRcpt s 
   all_goals (simp [KeepsMail, KeepsRcpt, finish_state] <;> try (repeat' split) <;> simp_all)
 
 theorem noop_keeps (v s) : (stepNoop v s).1.haveMail = s.haveMail ∧ (stepNoop v s).1.haveRcpt = s.haveRcpt := by
-  simp [stepNoop, callback, finish_state]
+  by_cases hp : s.session = true <;> simp [stepNoop, callback, finish_state, hp]
 
 theorem quit_keeps (v s arg) : (stepQuit v s arg).1.haveMail = s.haveMail ∧ (stepQuit v s arg).1.haveRcpt = s.haveRcpt := by
   simp only [stepQuit, callback]
-  split <;> simp [finish_state]
+  split
+  · simp
+  · by_cases hp : s.session = true <;> simp [finish_state, hp]
 
 theorem custom_keeps (v : Verdicts) (s : St) (name : Bytes) (arg : Option Bytes) :
     (stepCustom v s name arg).1.haveMail = s.haveMail ∧ (stepCustom v s name arg).1.haveRcpt = s.haveRcpt := by
@@ -404,5 +412,408 @@ example : (stepMail (fun _ => none) { bannered := true, ehloAs := some [97], ext
 
 example : (stepMail (fun _ => none) { bannered := true, extTls := false, extAuth := false, extSize := none }
     (some [70, 82, 79, 77, 58, 60, 97, 62])).2.1 = [.reply 503] := by decide
+
+/-! ## SmtpSession's own copy of the transaction (edge/smtp.py)
+
+`SmtpSession` keeps the envelope under construction next to the server's `have_mailfrom` / `have_rcptto` flags and relies on the
+server's command gating: `RCPT` and `HAVE_DATA` `assert self.envelope is not None`, `HAVE_DATA` hands `self.envelope` to the queue,
+and the envelope is NOT cleared when a message is refused at the end of DATA. The theorems below show that this is sound for a
+handler whose RSET leaves the reply alone (`session`: SmtpSession.RSET consults no validator): while the server holds an accepted
+sender the session holds an envelope, while it holds an accepted recipient the envelope has one, through every command, message,
+handshake and AUTH exchange of a session; so the asserts never fire and no message is handed to the queue without a recipient. -/
+
+/-- While the server holds an accepted sender the session holds an envelope; while it holds an accepted recipient the
+    envelope has one (and a sender is held). -/
+def EnvInv (s : St) : Prop :=
+  (s.haveMail = .yes → s.envelope.isSome) ∧ (s.haveRcpt = .yes → ∃ f rs, s.envelope = some (f, rs) ∧ rs ≠ []) ∧
+  (s.haveRcpt = .yes → s.haveMail = .yes)
+
+theorem envInv_unset {s : St} (h1 : s.haveMail = .unset) (h2 : s.haveRcpt = .unset) : EnvInv s := by
+  refine ⟨fun h => ?_, fun h => ?_, fun h => ?_⟩
+  · rw [h1] at h; cases h
+  · rw [h2] at h; cases h
+  · rw [h2] at h; cases h
+
+
+theorem envInv_hello (v : Verdicts) (s : St) (isE : Bool) (arg : Option Bytes) (h : EnvInv s) : EnvInv (stepHello v s isE arg).1 := by
+  unfold stepHello
+  split
+  · exact h
+  · split
+    · exact h
+    · split
+      · exact h
+      · split
+        · exact h
+        · simp only [callback, finish_state]
+          by_cases hc : ((v s.ncb).getD 250 == 250) = true
+          · simp only [hc, if_true]; exact envInv_unset rfl rfl
+          · simp only [hc, Bool.false_eq_true, if_false]; exact h
+
+theorem truthy_iff (t : Tri) : t.truthy = true ↔ t = .yes := by cases t <;> simp [Tri.truthy]
+
+theorem envInv_mailAccepted (v : Verdicts) (s : St) (addr : Bytes) (ps) (h : EnvInv s) (hm : s.haveMail.truthy = false) :
+    EnvInv (mailAccepted v s addr ps).1 := by
+  have hny : s.haveMail ≠ .yes := fun he => by rw [he] at hm; simp [Tri.truthy] at hm
+  have hnr : s.haveRcpt ≠ .yes := fun he => hny (h.2.2 he)
+  simp only [mailAccepted, callback, finish_state, hm, Bool.false_or]
+  refine ⟨fun hy => ?_, fun hy => absurd hy hnr, fun hy => absurd hy hnr⟩
+  simp only at hy
+  by_cases h1 : ((v s.ncb).getD 250 == 221 || (v s.ncb).getD 250 == 421) = true
+  · simp only [h1, if_true] at hy; exact absurd hy hny
+  · simp only [h1, Bool.false_eq_true, if_false] at hy
+    by_cases h2 : ((v s.ncb).getD 250 == 250) = true
+    · simp [h2]
+    · simp [h2] at hy
+
+theorem stepMail_cases (v : Verdicts) (s : St) (arg : Option Bytes) :
+    (stepMail v s arg).1 = s ∨ (s.haveMail.truthy = false ∧ ∃ addr ps, (stepMail v s arg).1 = (mailAccepted v s addr ps).1) := by
+  unfold stepMail
+  split
+  · exact Or.inl rfl
+  · split
+    · exact Or.inl rfl
+    · split
+      · exact Or.inl rfl
+      · split
+        · exact Or.inl rfl
+        · split
+          · exact Or.inl rfl
+          · split
+            · exact Or.inl rfl
+            · rename_i hm
+              have hm' : s.haveMail.truthy = false := by simpa using hm
+              dsimp only
+              split
+              · exact Or.inr ⟨hm', _, _, rfl⟩
+              · split
+                · exact Or.inl rfl
+                · split
+                  · exact Or.inl rfl
+                  · split
+                    · exact Or.inl rfl
+                    · exact Or.inr ⟨hm', _, _, rfl⟩
+
+theorem envInv_mail (v : Verdicts) (s : St) (arg : Option Bytes) (h : EnvInv s) : EnvInv (stepMail v s arg).1 := by
+  rcases stepMail_cases v s arg with he | ⟨hm, addr, ps, he⟩
+  · rw [he]; exact h
+  · rw [he]; exact envInv_mailAccepted v s addr ps h hm
+
+theorem envInv_rcpt (v : Verdicts) (s : St) (arg : Option Bytes) (h : EnvInv s) : EnvInv (stepRcpt v s arg).1 := by
+  unfold stepRcpt
+  repeat' split
+  all_goals first
+    | exact h
+    | skip
+  all_goals
+    rename_i hm
+    have hy : s.haveMail = .yes := by
+      have : s.haveMail.truthy = true := by simpa using hm
+      exact (truthy_iff _).mp this
+    obtain ⟨fr, hfr⟩ := Option.isSome_iff_exists.mp (h.1 hy)
+    obtain ⟨f, r0⟩ := fr
+    simp only [callback, finish_state]
+    refine ⟨fun _ => ?_, fun hr => ?_, fun _ => hy⟩
+    · by_cases h2 : ((v s.ncb).getD 250 == 250) = true <;> simp [h2, hfr]
+    · simp only at hr
+      have close1 : ∀ (f' : Bytes) (rs : List Bytes) (x : Bytes), ∃ f rs1, (f' = f ∧ rs ++ [x] = rs1) ∧ ¬ rs1 = [] :=
+        fun f' rs x => ⟨_, _, ⟨rfl, rfl⟩, by simp⟩
+      by_cases h2 : ((v s.ncb).getD 250 == 250) = true
+      · simp only [h2, if_true, hfr, Option.map_some, Option.some.injEq, Prod.mk.injEq]
+        exact close1 _ _ _
+      · simp only [h2, Bool.false_eq_true, if_false, Bool.or_false] at hr ⊢
+        have hyr : s.haveRcpt = .yes := by
+          by_cases h1 : ((v s.ncb).getD 250 == 221 || (v s.ncb).getD 250 == 421) = true
+          · simpa [h1] using hr
+          · simp only [h1, Bool.false_eq_true, if_false] at hr
+            by_cases h3 : s.haveRcpt.truthy = true
+            · exact (truthy_iff _).mp h3
+            · simp [h3] at hr
+        exact h.2.1 hyr
+
+
+theorem envInv_congr {s s' : St} (h : EnvInv s) (h1 : s'.haveMail = s.haveMail) (h2 : s'.haveRcpt = s.haveRcpt)
+    (h3 : s'.envelope = s.envelope) : EnvInv s' := by
+  unfold EnvInv at *
+  rw [h1, h2, h3]; exact h
+
+theorem stepStartTls_state (v : Verdicts) (s : St) (arg : Option Bytes) :
+    (stepStartTls v s arg).1 = s ∨ (stepStartTls v s arg).1 = { s with ncb := s.ncb + 1 } := by
+  simp only [stepStartTls, callback]
+  split
+  · exact Or.inl rfl
+  · split
+    · exact Or.inl rfl
+    · split
+      · exact Or.inl rfl
+      · refine Or.inr ?_
+        by_cases h1 : ((v s.ncb).getD 220 == 221 || (v s.ncb).getD 220 == 421) = true
+        · simp only [h1, if_true]
+        · simp only [h1, Bool.false_eq_true, if_false]
+          by_cases h2 : ((v s.ncb).getD 220 == 220) = true
+          · simp only [h2, if_true]
+          · simp only [h2, Bool.false_eq_true, if_false]
+
+theorem envInv_starttls (v : Verdicts) (s : St) (arg : Option Bytes) (h : EnvInv s) : EnvInv (stepStartTls v s arg).1 := by
+  rcases stepStartTls_state v s arg with he | he <;> rw [he]
+  · exact h
+  · exact envInv_congr h rfl rfl rfl
+
+theorem envInv_auth (s : St) (arg : Option Bytes) (h : EnvInv s) : EnvInv (stepAuth s arg).1 := by
+  rw [auth_keeps]; exact h
+
+theorem stepData_state (v : Verdicts) (s : St) (arg : Option Bytes) :
+    (stepData v s arg).1 = s ∨ (stepData v s arg).1 = { s with ncb := s.ncb + 1 } := by
+  simp only [stepData, callback]
+  split
+  · exact Or.inl rfl
+  · split
+    · exact Or.inl rfl
+    · refine Or.inr ?_
+      by_cases h1 : ((v s.ncb).getD 354 == 221 || (v s.ncb).getD 354 == 421) = true
+      · simp only [h1, if_true]
+      · simp only [h1, Bool.false_eq_true, if_false]
+        by_cases h2 : ((v s.ncb).getD 354 == 354) = true
+        · simp only [h2, if_true]
+        · simp only [h2, Bool.false_eq_true, if_false]
+
+theorem envInv_data (v : Verdicts) (s : St) (arg : Option Bytes) (h : EnvInv s) : EnvInv (stepData v s arg).1 := by
+  rcases stepData_state v s arg with he | he <;> rw [he]
+  · exact h
+  · exact envInv_congr h rfl rfl rfl
+
+theorem envInv_rset (v : Verdicts) (s : St) (arg : Option Bytes) (h : EnvInv s) (hr : s.session = true) : EnvInv (stepRset v s arg).1 := by
+  unfold stepRset
+  split
+  · exact h
+  · simp only [hr, if_true, finish_state, beq_self_eq_true]
+    exact envInv_unset rfl rfl
+
+theorem envInv_noop (v : Verdicts) (s : St) (h : EnvInv s) : EnvInv (stepNoop v s).1 := by
+  by_cases hp : s.session = true
+  · simp only [stepNoop, hp, if_true, finish_state]; exact h
+  · simp only [stepNoop, hp, Bool.false_eq_true, if_false, callback, finish_state]; exact envInv_congr h rfl rfl rfl
+
+theorem envInv_quit (v : Verdicts) (s : St) (arg : Option Bytes) (h : EnvInv s) : EnvInv (stepQuit v s arg).1 := by
+  unfold stepQuit
+  split
+  · exact h
+  · by_cases hp : s.session = true
+    · simp only [hp, if_true, finish_state]; exact h
+    · simp only [hp, Bool.false_eq_true, if_false, callback, finish_state]; exact envInv_congr h rfl rfl rfl
+
+theorem envInv_custom (v : Verdicts) (s : St) (name : Bytes) (arg : Option Bytes) (h : EnvInv s) : EnvInv (stepCustom v s name arg).1 := by
+  simp only [stepCustom, callback, finish_state]; exact envInv_congr h rfl rfl rfl
+
+/-- **One command keeps the session's envelope in step with the server's transaction flags.** -/
+theorem envInv_step (v : Verdicts) (s : St) (cmd : Option (Bytes × Option Bytes)) (h : EnvInv s) (hr : s.session = true) :
+    EnvInv (step v s cmd).1 := by
+  unfold step
+  repeat' split
+  all_goals first
+    | exact h
+    | exact envInv_hello v s _ _ h
+    | exact envInv_starttls v s _ h
+    | exact envInv_auth s _ h
+    | exact envInv_mail v s _ h
+    | exact envInv_rcpt v s _ h
+    | exact envInv_data v s _ h
+    | exact envInv_rset v s _ h hr
+    | exact envInv_noop v s h
+    | exact envInv_quit v s _ h
+    | exact envInv_custom v s _ _ h
+
+theorem envInv_afterData (v : Verdicts) (s : St) (content : Option Bytes) : EnvInv (afterData v s content).1 := by
+  simp only [afterData, callback, finish_state]; exact envInv_unset rfl rfl
+
+theorem envInv_afterTls (s : St) : EnvInv (afterTls s).1 := envInv_unset rfl rfl
+
+/-- **`assert self.envelope is not None` in `SmtpSession.RCPT` never fires**: whenever the server makes the RCPT callback (it
+    does so only with an accepted sender), the session holds an envelope. -/
+theorem rcpt_callback_has_envelope (v : Verdicts) (s : St) (arg : Option Bytes) (h : EnvInv s) (addr : Bytes) (ps)
+    (hcb : Event.cb (.rcpt addr ps) ∈ (stepRcpt v s arg).2.1) : s.envelope.isSome := by
+  by_cases hy : s.haveMail = .yes
+  · exact h.1 hy
+  · exfalso
+    have ht : s.haveMail.truthy = false := by cases hm : s.haveMail <;> simp_all [Tri.truthy]
+    unfold stepRcpt at hcb
+    repeat' split at hcb
+    all_goals first
+      | (simp at hcb; done)
+      | (rename_i hx; simp [ht] at hx)
+
+/-- **`assert self.envelope is not None` in `SmtpSession.HAVE_DATA` never fires, and the envelope it hands to the queue has a
+    recipient**: when DATA is answered 354 (the message is read next and HAVE_DATA follows in the same state), the session holds
+    an envelope with at least one recipient. -/
+theorem data_accepted_has_envelope (v : Verdicts) (s : St) (arg : Option Bytes) (h : EnvInv s)
+    (hd : (stepData v s arg).2.2 = .data) :
+    ∃ f rs, (stepData v s arg).1.envelope = some (f, rs) ∧ rs ≠ [] := by
+  have hr : s.haveRcpt = .yes := by
+    by_cases hf : (!s.haveMail.truthy || !s.haveRcpt.truthy) = true
+    · exfalso
+      simp only [stepData] at hd
+      by_cases ha : arg.isSome = true <;> simp [ha, hf] at hd
+    · simp only [Bool.or_eq_true, Bool.not_eq_true', not_or, Bool.not_eq_false] at hf
+      exact (truthy_iff _).mp hf.2
+  have he : (stepData v s arg).1.envelope = s.envelope := by
+    rcases stepData_state v s arg with e | e <;> rw [e]
+  rw [he]; exact h.2.1 hr
+
+
+/-! ### the whole command loop -/
+
+theorem keep_hello (v : Verdicts) (s : St) (isE : Bool) (arg : Option Bytes) : (stepHello v s isE arg).1.session = s.session := by
+  simp only [stepHello, callback]
+  repeat' split
+  all_goals first
+    | rfl
+    | (rw [finish_state]; by_cases hc : ((v s.ncb).getD 250 == 250) = true <;> simp [hc])
+
+theorem keep_starttls (v : Verdicts) (s : St) (arg : Option Bytes) : (stepStartTls v s arg).1.session = s.session := by
+  rcases stepStartTls_state v s arg with e | e <;> rw [e]
+
+theorem keep_mail (v : Verdicts) (s : St) (arg : Option Bytes) : (stepMail v s arg).1.session = s.session := by
+  rcases stepMail_cases v s arg with he | ⟨_, addr, ps, he⟩ <;> rw [he]
+  simp only [mailAccepted, callback, finish_state]
+
+theorem keep_data (v : Verdicts) (s : St) (arg : Option Bytes) : (stepData v s arg).1.session = s.session := by
+  rcases stepData_state v s arg with e | e <;> rw [e]
+
+theorem keep_rcpt (v : Verdicts) (s : St) (arg : Option Bytes) : (stepRcpt v s arg).1.session = s.session := by
+  unfold stepRcpt
+  repeat' split
+  all_goals first
+    | rfl
+    | (simp only [callback, finish_state])
+
+theorem keep_rset (v : Verdicts) (s : St) (arg : Option Bytes) : (stepRset v s arg).1.session = s.session := by
+  unfold stepRset
+  split
+  · rfl
+  · by_cases hp : s.session = true
+    · simp only [hp, if_true, finish_state, beq_self_eq_true]
+    · simp only [hp, Bool.false_eq_true, if_false, callback, finish_state]
+      split <;> simp [hp]
+
+theorem keep_noop (v : Verdicts) (s : St) : (stepNoop v s).1.session = s.session := by
+  by_cases hp : s.session = true <;> simp [stepNoop, callback, finish_state, hp]
+
+theorem keep_quit (v : Verdicts) (s : St) (arg : Option Bytes) : (stepQuit v s arg).1.session = s.session := by
+  unfold stepQuit
+  split
+  · rfl
+  · by_cases hp : s.session = true <;> simp [callback, finish_state, hp]
+
+theorem keep_step (v : Verdicts) (s : St) (cmd : Option (Bytes × Option Bytes)) : (step v s cmd).1.session = s.session := by
+  unfold step
+  repeat' split
+  all_goals first
+    | rfl
+    | exact keep_hello v s _ _
+    | exact keep_starttls v s _
+    | (rw [auth_keeps])
+    | exact keep_mail v s _
+    | exact keep_rcpt v s _
+    | exact keep_data v s _
+    | exact keep_rset v s _
+    | exact keep_noop v s
+    | exact keep_quit v s _
+    | (simp only [stepCustom, callback, finish_state])
+
+theorem keep_afterData (v : Verdicts) (s : St) (c : Option Bytes) : (afterData v s c).1.session = s.session := by
+  by_cases hc : (s.session && c.isNone) = true <;> simp [afterData, callback, finish_state, hc]
+
+theorem authExchange_state (v : Verdicts) (ao : AuthOracle) (s : St) (mech : Bytes) (initial : Option Bytes) (st : Stream)
+    (s2 : St) (evs : List Event) (nx : Next) (st2 : Stream) (h : authExchange v ao s mech initial st = .ok (s2, evs, nx, st2)) :
+    s2.haveMail = s.haveMail ∧ s2.haveRcpt = s.haveRcpt ∧ s2.envelope = s.envelope ∧ s2.session = s.session := by
+  unfold authExchange at h
+  repeat' split at h
+  all_goals first
+    | (simp only [Except.ok.injEq, Prod.mk.injEq] at h; obtain ⟨rfl, _⟩ := h; exact ⟨rfl, rfl, rfl, rfl⟩)
+    | (simp only [callback, finish_state, Except.ok.injEq, Prod.mk.injEq] at h; obtain ⟨rfl, _⟩ := h; exact ⟨rfl, rfl, rfl, rfl⟩)
+    | (simp at h; done)
+
+/-- **Through a whole session loop** (any number of commands, messages and AUTH exchanges, any verdicts of the validators, any
+    segmentation): the session's envelope stays in step with the server's transaction flags. -/
+theorem envInv_loop (v : Verdicts) (ao : AuthOracle) (fuel : Nat) (s : St) (st : Stream) (acc : List Event)
+    (hp : s.session = true) (h : EnvInv s) :
+    EnvInv (loop v ao fuel s st acc).state ∧ (loop v ao fuel s st acc).state.session = true := by
+  induction fuel generalizing s st acc with
+  | zero => exact ⟨h, hp⟩
+  | succ fuel ih =>
+    unfold loop
+    split
+    · exact ⟨h, hp⟩
+    · exact ⟨h, hp⟩
+    · rename_i line st1 _
+      have h1 := envInv_step v s (parseCommand line) h hp
+      have hp1 : (step v s (parseCommand line)).1.session = true := by rw [keep_step]; exact hp
+      split
+      · rename_i s1 evs nx heq
+        have e1 : s1 = (step v s (parseCommand line)).1 := by rw [heq]
+        subst e1
+        split
+        · exact ih _ _ _ hp1 h1
+        · exact ⟨h1, hp1⟩
+        · exact ⟨h1, hp1⟩
+        · exact ⟨h1, hp1⟩
+        · split
+          · exact ⟨h1, hp1⟩
+          · exact ⟨h1, hp1⟩
+          · rename_i r _
+            split
+            · rename_i s2 evs2 nx2 heq2
+              have e2 : s2 = (afterData v (step v s (parseCommand line)).1 r.data).1 := by rw [heq2]
+              have h2 : EnvInv s2 := by rw [e2]; exact envInv_afterData v _ _
+              have hp2 : s2.session = true := by rw [e2, keep_afterData]; exact hp1
+              split
+              · exact ⟨h2, hp2⟩
+              · exact ih _ _ _ hp2 h2
+        · split
+          · exact ⟨h1, hp1⟩
+          · exact ⟨h1, hp1⟩
+          · rename_i s2 evs2 nx2 st2 heq2
+            obtain ⟨a1, a2, a3, a4⟩ := authExchange_state v ao _ _ _ _ s2 evs2 nx2 st2 heq2
+            have h2 : EnvInv s2 := envInv_congr h1 a1 a2 a3
+            have hp2 : s2.session = true := by rw [a4]; exact hp1
+            split
+            · exact ⟨h2, hp2⟩
+            · exact ih _ _ _ hp2 h2
+
+
+theorem envInv_serve_go (v : Verdicts) (ao : AuthOracle) (fuel : Nat) (k : Nat) (s : St) (st : Stream) (tls : List (List Bytes))
+    (acc : List Event) (hp : s.session = true) (h : EnvInv s) :
+    EnvInv (serve.go v ao fuel k s st tls acc).state := by
+  induction k generalizing s st tls acc with
+  | zero => exact h
+  | succ k ih =>
+    unfold serve.go
+    have hl := envInv_loop v ao fuel s st acc hp h
+    simp only
+    split
+    · split
+      · exact hl.1
+      · rename_i t ts
+        exact ih _ _ _ _ (by simp [afterTls, hl.2]) (envInv_afterTls _)
+    · exact hl.1
+
+/-- **A whole edge session** — banner, any commands, messages, AUTH exchanges and STARTTLS handshakes, any verdicts of the
+    validators, any segmentation of the client's bytes: at the end (and, by the same induction, at every command boundary) the
+    envelope `SmtpSession` holds is in step with the server's transaction flags. -/
+theorem envInv_serve (cfg : Cfg) (hc : cfg.session = true) (v : Verdicts) (ao : AuthOracle) (st : Stream) (tlsStreams : List (List Bytes)) :
+    EnvInv (serve cfg v ao st tlsStreams).state := by
+  have h0 : EnvInv (banner v (initSt cfg)).1 := by
+    simp only [banner, callback, finish_state]
+    exact envInv_unset rfl rfl
+  have hp0 : (banner v (initSt cfg)).1.session = true := by
+    simp only [banner, callback, finish_state, initSt]; exact hc
+  unfold serve
+  simp only
+  split
+  · exact h0
+  · exact envInv_serve_go v ao _ _ _ _ _ _ hp0 h0
+
+/-- non-vacuity: a refused message leaves the envelope behind (`HAVE_DATA` returns early), and the invariant still holds -/
+example : EnvInv { (initSt ⟨false, false, none, false, [], true⟩) with envelope := some ([97], [[98]]) } := envInv_unset rfl rfl
 
 end Slimta.C07
